@@ -331,7 +331,7 @@ func (s *st) runGenerated() {
 			host = 1
 		}
 		var line string
-		switch k := h.Intn(12); {
+		switch k := h.Intn(13); {
 		case k < 5:
 			v4, v6 := 1, h.Intn(2)
 			if h.Chance(0.15) {
@@ -349,7 +349,11 @@ func (s *st) runGenerated() {
 			line = fmt.Sprintf("begin %d autoassign host=%d h=%d n=1", tid, host, hid)
 		default:
 			// somebody else's addresses, to exhaust small pools
-			line = fmt.Sprintf("begin %d autoassign host=%d h=0 n=%d", tid, host, 1+h.Intn(3))
+			if h.Chance(0.5) {
+				line = fmt.Sprintf("begin %d autoassign host=%d h=0 n=%d", tid, host, 1+h.Intn(3))
+			} else {
+				line = fmt.Sprintf("begin %d autoassign host=%d h=0 n=0 n6=%d", tid, host, 1+h.Intn(4))
+			}
 		}
 		s.exec(line)
 		for steps := 0; steps < 400; steps++ {
@@ -358,7 +362,7 @@ func (s *st) runGenerated() {
 				break
 			}
 			f := ipamkv.FNone
-			if faulty && h.Chance(0.06) {
+			if faulty && h.Chance(0.03) {
 				f = ipamkv.FError
 			}
 			s.exec(fmt.Sprintf("step %d %s", rd[0], f))
@@ -373,7 +377,7 @@ func main() {
 	devnull, _ := os.OpenFile(os.DevNull, os.O_WRONLY, 0)
 	os.Stdout = devnull // cmdAdd prints the CNI result to stdout
 	h.Rule = "case = 1-2 containers on 2 hosts, one small IPv4 pool (+ usually one small IPv6 pool), cooldown 0/300s; 3..10 SEQUENTIAL commands over {CNI ADD (v4 / v4+v6 / v6), CNI DEL, legacy workload-ID allocation, foreign allocations exhausting the pool}, " +
-		"two thirds of the cases with a datastore error injected at 6% of the backend calls of the IPAM client (so at / inside every IPAM call); non-trivial = a case containing a failed command and a successful DEL"
+		"two thirds of the cases with a datastore error injected at 3% of the backend calls of the IPAM client (so at / inside every IPAM call); non-trivial = a case containing a failed command and a successful DEL"
 	mk := func() *st {
 		s := &st{h: h, r: ipamkv.NewRunner(h), lock: filepath.Join(h.OutDir, "ipam.lock"), nCont: 2}
 		s.r.ExtraOp = s.extraOp
